@@ -114,7 +114,8 @@ pub fn corr(ctx: &mut Ctx) {
             let w = script[d];
             match catch(std::panic::AssertUnwindSafe(|| fy.next(&mut rng))) {
                 Ok(k) => {
-                    ctx.line(&format!("fy next f {}", hx(w)), &format!("{} | {}", k, join(fy.get_values())));
+                    if m <= 64 { ctx.line(&format!("fy next f {}", hx(w)), &format!("{} | {}", k, join(fy.get_values()))); }
+                    else { ctx.line(&format!("fy nextk f {}", hx(w)), &format!("{}", k)); if (d + 1) % m == 0 { ctx.line("fy values f", &join(fy.get_values())); } }
                     block.push(k);
                     if block.len() == m {
                         let mut b = block.clone();
@@ -126,7 +127,7 @@ pub fn corr(ctx: &mut Ctx) {
                     }
                 }
                 Err(msg) => {
-                    ctx.line(&format!("fy next f {}", hx(w)), "PANIC");
+                    ctx.line(&format!("fy {} f {}", if m <= 64 { "next" } else { "nextk" }, hx(w)), "PANIC");
                     ctx.oracle_failure(serde_json::json!({"kind":"impl_violates_property","what":"next panicked","m":m,"msg":msg,"draw":d}));
                     failed = true;
                     break;
@@ -149,7 +150,8 @@ pub fn corr(ctx: &mut Ctx) {
             let r2 = catch(std::panic::AssertUnwindSafe(|| fresh.next(&mut rng2)));
             match (r, r2) {
                 (Ok(k), Ok(k2)) => {
-                    ctx.line(&format!("fy next f {}", hx(w)), &format!("{} | {}", k, join(fy.get_values())));
+                    if m <= 64 { ctx.line(&format!("fy next f {}", hx(w)), &format!("{} | {}", k, join(fy.get_values()))); }
+                    else { ctx.line(&format!("fy nextk f {}", hx(w)), &format!("{}", k)); if (d + 1 - ndraw_before) % m == 0 || d + 1 == total { ctx.line("fy values f", &join(fy.get_values())); } }
                     if k != k2 {
                         ctx.oracle_failure(serde_json::json!({"kind":"impl_violates_property","what":"draws after reset depend on history","m":m,"before":ndraw_before,"draw":d-ndraw_before,"after_reset":k,"fresh":k2,
                          "script":script.iter().map(|x| hx(*x)).collect::<Vec<_>>()}));
@@ -169,7 +171,7 @@ pub fn corr(ctx: &mut Ctx) {
                     }
                 }
                 (a, _) => {
-                    ctx.line(&format!("fy next f {}", hx(w)), "PANIC");
+                    ctx.line(&format!("fy {} f {}", if m <= 64 { "next" } else { "nextk" }, hx(w)), "PANIC");
                     ctx.oracle_failure(serde_json::json!({"kind":"impl_violates_property","what":"next panicked after reset","m":m,"msg":format!("{:?}",a.err())}));
                     break;
                 }
